@@ -1027,8 +1027,9 @@ func orderedAsStrings(left, right Value) (string, string, bool) {
 		return "", "", false
 	}
 	ls, rs := CoerceString(left), CoerceString(right)
-	_, lerr := strconv.ParseFloat(strings.TrimSpace(ls), 64)
-	_, rerr := strconv.ParseFloat(strings.TrimSpace(rs), 64)
+	// (What spells a number is what CoerceNumber reads as one: " 7" does not.)
+	_, lerr := strconv.ParseFloat(ls, 64)
+	_, rerr := strconv.ParseFloat(rs, 64)
 	if lerr == nil && rerr == nil {
 		return "", "", false
 	}
